@@ -78,7 +78,19 @@ fn build_trace(r: &mut Rng) -> Vec<(Vec<u8>, u64, &'static str)> {
     let eps = endpoints(r, n, v6);
     let conns: Vec<Conn> = eps
         .into_iter()
-        .map(|e| match r.below(3) {
+        .map(|e| match r.below(4) {
+            3 => {
+                // TCP Fast Open: the SYN itself carries the ClientHello (or the HTTP request); the TCP
+                // analyzer reports a pure SYN for the same packet
+                let (c, s) = e;
+                let mut syn = Seg::new(c, s, SYN);
+                syn.options = Seg::syn_options(1460, 7, Some(r.next() as u32));
+                let tls = r.chance(1, 2);
+                syn.payload = if tls { net::client_hello(r) } else { net::http1_request(r) };
+                let mut sa = Seg::new(s, c, SYN | ACK);
+                sa.options = Seg::syn_options(1400, 6, Some(r.next() as u32));
+                Conn { client: c, server: s, segs: vec![syn, sa], kind: "tfo" }
+            }
             0 => {
                 // single-segment ClientHello connection
                 let (c, s) = e;
